@@ -320,6 +320,8 @@ def run(ctx):
         from .c01_arith import check_builtin_arithmetic
         if cname == "MAX":
             check_builtin_arithmetic(ctx, prog, tag)
+            from .c01_arith import check_accumulations
+            check_accumulations(ctx, prog, tag)
         for fn_, what in (("minijinja::filters::builtins::indent", "indent width"), ("minijinja::filters::builtins::tojson", "tojson indent")):
             f = prog.fns.get(fn_)
             if f is None:
